@@ -446,6 +446,12 @@ func (c *Ctx) configSinks() {
 					add(fld, "element == value") // membership test by the standard library
 					continue
 				}
+				if idx == 0 {
+					if fn, _ := equalityClosureSearch(x); fn != nil {
+						add(fld, "element == value") // membership by equality through slices.ContainsFunc / IndexFunc
+						continue
+					}
+				}
 				add(fld, fmt.Sprintf("arg %d of %s", idx, short(name)))
 			}
 		}
